@@ -524,6 +524,10 @@ def run(tier, seed, replay):
                           "exceptions": [{"use": c20_cfg.f_text(u["use"]), "def": c20_cfg.f_text(u["def"]),
                                           "witness": u["witness"], "what": sorted(set(s["what"] for s in u["sites"]))}
                                          for u in x["exceptions"]]}
+    if tier == "thorough":
+        # the full matrix leaves tens of GB of build output behind: drop it (the quick tier rebuilds what it needs)
+        import shutil
+        shutil.rmtree(TARGET, ignore_errors=True)
     return chk.finish(
         proof=st,
         rule="T-gen pairs: every use site (use declarations, crate paths, bare guarded names, template paths into the facade, "
